@@ -889,7 +889,9 @@ fn spawn_doc(trivia: &Trivia, func: &Term) -> Doc {
                 Some(body) => pretty::concat(vec![pretty::text(head), block_doc(trivia, body)]),
             }
         }
-        other => pretty::text(format!("@{}", render_term_atom(other))),
+        // Anything else the parser accepts after `@` (`@f`, `@~`, `@[f]`, `@@f`, `@"s"` …): containers
+        // included, so through `term_doc`, not `render_term_atom`.
+        other => pretty::concat(vec![pretty::text("@"), term_doc(trivia, other)]),
     }
 }
 
